@@ -49,6 +49,8 @@ var c20Splices = [][]byte{
 	{0xff, 0x00, 0x00, 0x00, 0x00, 0x01, 0x00, 0x00, 0x00},
 	{0xff, 0xff, 0xff, 0xff, 0xff, 0xff, 0xff, 0xff, 0xff},
 	{0xff, 0xff, 0xff, 0xff, 0xff, 0xff, 0xff, 0xff, 0x7f},
+	{0xfe, 0x00, 0x00, 0x00, 0x02}, // 32 Mi: a "plausible" claim that passes sanity limits
+	{0xfe, 0x00, 0x00, 0x40, 0x00}, // 4 Mi
 }
 
 // C20Judge classifies one probe answer; returns (rule, detail) or "".
@@ -80,13 +82,13 @@ func c20Judge(ans string, crash *verifkit.Crash, inputLen int) (string, string) 
 
 func TestVerif_C20(t *testing.T) {
 	rep := verifkit.NewReport("C20")
-	rep.Rule = "inputs: for every message type, generated valid encodings with a maximal varint (0xfd ffff, 0xfe ffffffff, 0xff 2^32, 0xff 2^64-1, 0xff 2^63-1) spliced in at every byte offset, plus random strings behind every valid type code and random type codes; each input is decoded in a probe child (address space limited to 3 GiB) that reports outcome and bytes allocated; a panic, a process-fatal error or allocation above 1 MiB + 64*len(input) is a finding with signature (message type, kind, dying function). Non-trivial = the decoder got past the type code; distinct by (type, splice, offset class, outcome)"
+	rep.Rule = "inputs: for every message type, generated valid encodings with a maximal varint (0xfd ffff, 0xfe ffffffff, 0xff 2^32, 0xff 2^64-1, 0xff 2^63-1) or a mid-range claim (4 Mi, 32 Mi) spliced in at every byte offset, plus random strings behind every valid type code and random type codes; each input is decoded in a probe child (address space limited to 3 GiB) that reports outcome and bytes allocated; a panic, a process-fatal error or allocation above 1 MiB + 64*len(input) is a finding with signature (message type, kind, dying function). Non-trivial = the decoder got past the type code; distinct by (type, splice, offset class, outcome)"
 	rep.Assumptions = []string{"TotalAlloc delta measured with runtime.ReadMemStats around the call in the child", "a death of the probe child before it serves an input is infrastructure (inconclusive), not a finding"}
 	defer rep.Write()
 
 	child := verifkit.NewChild("c20-msg")
 	defer child.Close()
-	perType := verifkit.N(3, 300)
+	perType := verifkit.N(2, 300)
 	ci := 0
 	probe := func(typ string, region string, shape string, in []byte) {
 		ans, crash, err := child.Probe(in)
@@ -143,8 +145,8 @@ func TestVerif_C20(t *testing.T) {
 				}
 				return "splice-in-own-fields"
 			}
-			if len(enc) > 1200 {
-				enc = enc[:1200] // keep the number of offsets bounded; truncation is hostile too
+			if len(enc) > 700 {
+				enc = enc[:700] // keep the number of offsets bounded; truncation is hostile too
 			}
 			for off := 1; off < len(enc); off++ {
 				for si, sp := range c20Splices {
@@ -163,7 +165,7 @@ func TestVerif_C20(t *testing.T) {
 			}
 			rep.Case(fmt.Sprintf("%s/%d", name, len(enc)%11), true)
 			if rep.WantSample() {
-				rep.Sample(map[string]interface{}{"type": name, "valid_encoding_hex": hex.EncodeToString(enc[:minInt(len(enc), 120)]), "splices": "5 varint maxima at every offset + 20 random tails"})
+				rep.Sample(map[string]interface{}{"type": name, "valid_encoding_hex": hex.EncodeToString(enc[:minInt(len(enc), 120)]), "splices": "7 varint values at every offset + 20 random tails"})
 			}
 		}
 	}
